@@ -4,6 +4,8 @@ package checks
 
 import (
 	"fmt"
+	"os"
+	"path/filepath"
 	"runtime"
 	"strings"
 	"sync"
@@ -315,6 +317,7 @@ func runC06(c *fw.Ctx) {
 	if refcatHook != nil {
 		refcatHook(c, "C06")
 	}
+	runC06Includes(c)
 	al := ctxAlphabet()
 	type node struct {
 		seq []int
@@ -774,5 +777,148 @@ func init() {
 	fw.DebugCmds["ctx"] = func(args []string) {
 		a, b := implScan(args[0]), implPaste(args[0])
 		fmt.Printf("scan : %+v\npaste: %+v\n", a, b)
+	}
+}
+
+// runC06Includes: "reading directives in order" does not stop at file boundaries. ALL token
+// sequences of length 2..3 (thorough: 4 over a reduced alphabet) x every way of moving a contiguous
+// run of whole directives (without parentheses of its own) into an included file: the forest and
+// the kind of rejection are those of the reference resolver on the sequence written in one file.
+func runC06Includes(c *fw.Ctx) {
+	al := ctxAlphabet()
+	var toks []int
+	jsight := -1
+	for i, t := range al {
+		if t.name == "JSIGHT" {
+			jsight = i
+			continue
+		}
+		toks = append(toks, i)
+	}
+	reduced := []int{}
+	keep := map[string]bool{"URL": true, "GET": true, "GET/p": true, "POST/p": true, "200": true, "Request": true, "Body": true, "Headers": true, "TYPE": true, "Description": true, "Tags": true, "Path": true, "MACRO": true, "PASTE": true, "Method": true, "Protocol": true, "(": true, ")": true}
+	for _, i := range toks {
+		if keep[al[i].name] {
+			reduced = append(reduced, i)
+		}
+	}
+	dir := fw.Scratch("c06inc")
+	defer os.RemoveAll(dir)
+	root := filepath.Join(dir, "root.jst")
+	inc := filepath.Join(dir, "inc.jst")
+	scan := func(text string) (r implResult) {
+		defer func() {
+			if p := recover(); p != nil {
+				r = implResult{crash: fmt.Sprint(p)}
+			}
+		}()
+		cc := core.NewJApiCore(fs.NewFile(root, []byte(text)))
+		tree, je := cc.VerifScan()
+		if je != nil {
+			r.msg = je.Msg
+			switch {
+			case strings.HasPrefix(je.Msg, "incorrect context of directive"):
+				r.rej = "ctx"
+			case strings.HasPrefix(je.Msg, "there is no explicit context for closure"):
+				r.rej = "close"
+			case strings.HasPrefix(je.Msg, "not all explicit contexts are closed"):
+				r.rej = "eof"
+			default:
+				r.rej = "other"
+			}
+			return r
+		}
+		r.tree = tree
+		return r
+	}
+	var seq []int
+	judge := func() {
+		full := append([]int{jsight}, seq...)
+		re := refRun(al, full)
+		re.end(al)
+		want := dumpRef(al, re.roots)
+		for i := 0; i < len(seq); i++ {
+			for j := i + 1; j <= len(seq); j++ {
+				paren := false
+				for _, t := range seq[i:j] {
+					if al[t].name == "(" || al[t].name == ")" {
+						paren = true
+					}
+				}
+				if paren || !c.Next() {
+					continue
+				}
+				c.Count("evaluations", 1)
+				var rb, ib strings.Builder
+				rb.WriteString(al[jsight].text + "\n")
+				for _, t := range seq[:i] {
+					rb.WriteString(al[t].text + "\n")
+				}
+				rb.WriteString("INCLUDE inc.jst\n")
+				for _, t := range seq[j:] {
+					rb.WriteString(al[t].text + "\n")
+				}
+				for _, t := range seq[i:j] {
+					ib.WriteString(al[t].text + "\n")
+				}
+				if err := os.WriteFile(inc, []byte(ib.String()), 0o644); err != nil {
+					c.NotExhaustive("scratch file: " + err.Error())
+					return
+				}
+				ir := scan(rb.String())
+				label := fmt.Sprintf("sequence [%s], tokens %d..%d in an included file", seqNames(al, seq), i, j-1)
+				witness := map[string]interface{}{"project": map[string]interface{}{"root": "root.jst", "files": map[string]string{"root.jst": rb.String(), "inc.jst": ib.String()}}}
+				switch {
+				case ir.crash != "":
+					c.Violate("context-resolution", "C06:include:crash", label+": crash "+clipS(ir.crash, 200), witness)
+				case ir.rej == "other":
+					c.Count("include_rejected_for_other_reasons", 1)
+				case re.rejected != "" && ir.rej == "":
+					c.Violate("context-resolution", "C06:include:accepted:"+re.rejected, fmt.Sprintf("%s: written in one file the reference rejects (%s), across the file boundary the library builds %s", label, re.rejected, clipS(ir.tree, 200)), witness)
+				case re.rejected == "" && ir.rej != "":
+					c.Violate("context-resolution", "C06:include:rejected:"+ir.rej, fmt.Sprintf("%s: written in one file the reference builds %s, across the file boundary the library rejects (%s)", label, clipS(want, 200), ir.msg), witness)
+				case re.rejected != "" && ir.rej != re.rejected:
+					c.Violate("context-resolution", "C06:include:other-rejection", fmt.Sprintf("%s: reference rejects with %s, the library with %s", label, re.rejected, ir.rej), witness)
+				case re.rejected == "" && ir.tree != want:
+					c.Violate("context-resolution", "C06:include:forest", fmt.Sprintf("%s: forest %s, reference %s", label, clipS(ir.tree, 300), clipS(want, 300)), witness)
+				default:
+					c.Distinct("inc|" + label)
+				}
+			}
+		}
+	}
+	var rec func(n int, alpha []int)
+	rec = func(n int, alpha []int) {
+		if len(seq) >= 2 {
+			judge()
+		}
+		if n == 0 || c.Expired() {
+			return
+		}
+		for _, t := range alpha {
+			seq = append(seq, t)
+			rec(n-1, alpha)
+			seq = seq[:len(seq)-1]
+		}
+	}
+	rec(3, toks)
+	if !c.Quick() {
+		// length 4 over the reduced alphabet (the shorter ones are covered above)
+		var rec4 func(n int)
+		rec4 = func(n int) {
+			if len(seq) == 4 {
+				judge()
+				return
+			}
+			if c.Expired() {
+				return
+			}
+			for _, t := range reduced {
+				seq = append(seq, t)
+				rec4(n - 1)
+				seq = seq[:len(seq)-1]
+			}
+		}
+		rec4(4)
 	}
 }
